@@ -1127,11 +1127,14 @@ class SessionTransaction(_StateChange, TransactionalContext):
             # if we expunged or not, but safe_discard does that anyway
             self.session.identity_map.safe_discard(s)
 
-            # restore the old key
+            # restore the old key; an object that was new in this
+            # transaction was made transient above and has no key
+            if s in to_expunge:
+                continue
             s.key = oldkey
 
             # now restore the object, but only if we didn't expunge
-            if s not in to_expunge and s.session_id == hash_key:
+            if s.session_id == hash_key:
                 self.session.identity_map.replace(s)
 
         for s in set(self._deleted).union(self.session._deleted):
